@@ -55,7 +55,8 @@ func runC06(r *vrt.Run, c C06Case) (o c06Out) {
 	}
 	refOut, err := Decompress(ref, c.Cfg, c.ReadJobs, nil)
 	if err != nil || !bytes.Equal(refOut, data) {
-		o.msg = fmt.Sprintf("reference decode (always-filling source) failed: err=%v, %d/%d bytes", err, len(refOut), len(data))
+		// the unchunked round trip itself fails: not an I/O granularity matter (C01 owns it, e.g. known finding KF-14)
+		r.Label("skipped:plain-roundtrip-fails")
 		return
 	}
 	// decode side: chunking source + drawn Read buffer lengths
